@@ -1,18 +1,18 @@
-\* behaviour generation with receipt subscribers (only blocks carrying a subscribed transaction are posted)
+\* behaviour generation around the batch size limit (block and header subscribers that lag behind, cut in the middle of a batch)
 SPECIFICATION Spec
 CONSTANTS
   NSubs = 2
   MaxSeq = 5
   MaxG = 3
-  MaxFail = 4
+  MaxFail = 2
   MaxReg = 4
   MaxRestart = 1
   MaxDel = 2
   FailSleeps = {0, 1}
   Bases = {0, 1}
-  Gates = {FALSE, TRUE}
-  Kinds = {"block", "receipt"}
-  MaxSizes = {100, 3}
+  Gates = {FALSE}
+  Kinds = {"block", "header"}
+  MaxSizes = {2, 3, 4}
   MaxBatch = 10
   Cap = 10
   FailLimit = 3
